@@ -510,7 +510,76 @@ def arg_form(values, form, what="names"):
         return numpy.array(list(values), dtype=bool if what == "mask" else numpy.int64)
     if form == "bare":
         return values[0]
+    # pass 7: the KIND of object the caller holds its index set / mask in (see TAKE_KINDS / FILTER_KINDS)
+    r = range_of_form(form)
+    if r is not None:
+        if list(r) != list(values):
+            raise InfraError("range form %r does not denote %r" % (form, values))
+        return r
+    if form == "gen":
+        return (v for v in list(values))
+    if form == "deque":
+        import collections
+
+        return collections.deque(values)
+    if form == "dict":
+        return {v: None for v in values}
+    if form == "dictkeys":
+        return {v: None for v in values}.keys()
+    if form == "dictvalues":
+        return dict(enumerate(values)).values()
+    if form == "bytes":
+        return bytes(values)
+    if form == "bytearray":
+        return bytearray(values)
+    if form == "array":
+        import array
+
+        return array.array("q", values)
+    if isinstance(form, str) and form.startswith("np:"):
+        return numpy.array(list(values), dtype=getattr(numpy, form[3:]))
     raise InfraError("bad argument form %r" % (form,))
+
+
+NP_INT_KINDS = {"np:int8": (-2**7, 2**7 - 1), "np:int16": (-2**15, 2**15 - 1), "np:int32": (-2**31, 2**31 - 1), "np:int64": (-2**63, 2**63 - 1),
+                "np:uint8": (0, 2**8 - 1), "np:uint16": (0, 2**16 - 1), "np:uint32": (0, 2**32 - 1), "np:uint64": (0, 2**64 - 1)}
+# The kinds of object an index set may be given as: everything whose `i in obj` is a membership test that can be asked
+# any number of times (established on the unchanged tree: each answers as the list of its members does).  NOT in the
+# list: one-shot iterators / generators (`i in it` consumes the iterator: the answer depends on the order of the
+# members - not a set of positions), str (`0 in "012"` is a TypeError).
+TAKE_KINDS = ("list", "tuple", "set", "frozenset", "numpy", "deque", "dict", "dictkeys", "dictvalues", "bytes", "bytearray", "array") + tuple(NP_INT_KINDS)
+# a mask is read once, front to back, zipped with the rows: any iterable of truth values, one-shot ones included
+FILTER_KINDS = ("list", "tuple", "numpy", "iter", "gen", "deque", "dictvalues", "np:uint8", "np:int64")
+ONE_SHOT = ("iter", "gen")
+
+
+def range_of_form(form):
+    """'range(4,0,-1)' -> range(4, 0, -1); None for any other form."""
+    m = re.fullmatch(r"range\((-?\d{1,25}),(-?\d{1,25}),(-?\d{1,25})\)", form) if isinstance(form, str) else None
+    if not m or int(m.group(3)) == 0:
+        return None
+    return range(int(m.group(1)), int(m.group(2)), int(m.group(3)))
+
+
+def form_name(form):
+    r = range_of_form(form)
+    if r is None:
+        return form
+    return "range %s%s%s" % ("ascending" if r.step > 0 else "descending", ", strided" if abs(r.step) > 1 else "", ", empty" if not len(r) else "")
+
+
+def take_form_ok(form, values):
+    if range_of_form(form) is not None:
+        r = range_of_form(form)
+        return len(r) <= 100000 and list(r) == list(values)
+    if form in ("bytes", "bytearray"):
+        return all(0 <= v <= 255 for v in values)
+    if form == "array":
+        return all(-2**63 <= v < 2**63 for v in values)
+    if form in NP_INT_KINDS or form == "numpy":
+        lo, hi = NP_INT_KINDS.get(form, NP_INT_KINDS["np:int64"])
+        return all(lo <= v <= hi for v in values)
+    return form in TAKE_KINDS
 
 
 def form_slot(form):
@@ -546,6 +615,8 @@ def same_argument(obj, fresh):
 
     if type(obj) is not type(fresh):
         return False
+    if type(obj).__name__ in ("dict_keys", "dict_values"):
+        return strict(list(obj)) == strict(list(fresh))
     if isinstance(obj, numpy.ndarray):
         return obj.dtype == fresh.dtype and obj.shape == fresh.shape and strict(tolist(obj)) == strict(tolist(fresh))
     return strict(obj) == strict(fresh)
@@ -601,7 +672,7 @@ def run_impl(case, after):
             obj = arg_form(values, base, kind)
             if slot is not None:
                 slots[slot] = obj
-        if base != "iter":  # (an iterator is used up by being read: that is what it is for)
+        if base not in ONE_SHOT:  # (an iterator is used up by being read: that is what it is for)
             passed.append([len(frames), what, obj, arg_form(values, base, kind), None])
         return obj
 
@@ -801,10 +872,10 @@ def valid_case(c):
             if k in ("filter", "take", "select") and not isinstance(op[2], list):
                 return False
             form3 = form_slot(op[3])[0] if k in ("filter", "take", "select") and len(op) == 4 else None
-            if k == "filter" and (not all(isinstance(b, bool) for b in op[2]) or (len(op) == 4 and form3 not in ("list", "tuple", "numpy", "iter"))):
+            if k == "filter" and (not all(isinstance(b, bool) for b in op[2]) or (len(op) == 4 and form3 not in FILTER_KINDS)):
                 return False
             if k == "take" and (not all(isinstance(b, int) and not isinstance(b, bool) for b in op[2])
-                                or (len(op) == 4 and form3 not in ("list", "tuple", "set", "frozenset", "numpy"))):
+                                or (len(op) == 4 and not take_form_ok(form3, op[2]))):
                 return False
             if k == "select" and (not all(isinstance(b, str) for b in op[2]) or (len(op) == 4 and (form3 not in ("list", "tuple", "bare")
                                                                                                     or (form3 == "bare" and len(op[2]) != 1)))):
@@ -814,7 +885,7 @@ def valid_case(c):
                 _b, _slot = form_slot(op[3] if k != "collect" and len(op) == 4 else (op[4] if k == "collect" else None))
                 if _slot is not None:
                     # one object per slot: every step of the slot names the same kind of object with the same contents
-                    if a is None or a[1] == "iter":
+                    if a is None or a[1] in ONE_SHOT:
                         return False
                     sig = (a[1], json.dumps(op[2]), k if a[1] == "numpy" else None)
                     if slot_sig.setdefault(_slot, sig) != sig:
@@ -1117,7 +1188,7 @@ def evaluate(ctx, cases):
         for op in c["ops"]:
             ctx.hit("op:" + op[0])
             if len(op) == 4 and op[0] in ("select", "filter", "take"):
-                ctx.hit("argform:%s/%s" % (op[0], form_slot(op[3])[0]))
+                ctx.hit("argform:%s/%s" % (op[0], form_name(form_slot(op[3])[0])))
         _uses = {}
         for _i, op in enumerate(c["ops"]):
             _a = arg_of(op) if op[0] in ("select", "filter", "take", "collect") else None
@@ -1226,10 +1297,28 @@ def gen_op(rng, kinds, names_of, nrows_of, allow=None, extra_names=(), prefer=No
     if k == "filter":
         m = rng.choice([n, n, n, max(n - 1, 0), n + 2, 0])
         mask = [rng.random() < 0.5 for _ in range(m)]
-        return [k, s, mask, rng.choice(["list", "list", "tuple", "numpy", "iter"])]
+        return [k, s, mask, rng.choice(["list", "list", "tuple", "numpy", "iter"]) if rng.random() < 0.7 else rng.choice(FILTER_KINDS)]
     if k == "take":
         m = rng.randint(0, n + 2)
-        return [k, s, [rng.randint(-2, n + 1) for _ in range(m)], rng.choice(["list", "list", "tuple", "set", "frozenset", "numpy"])]
+        u = rng.random()
+        if u < 0.25:
+            # the index set is a range object: ascending, descending, strided, empty, reaching below 0 / beyond the rows
+            a, b, st = rng.randint(-2, n + 2), rng.randint(-2, n + 2), rng.choice([1, -1, 2, -2, 3, -3, n + 1, -n - 1])
+            return [k, s, list(range(a, b, st)), "range(%d,%d,%d)" % (a, b, st)]
+        idx = [rng.randint(-2, n + 1) for _ in range(m)]
+        if u < 0.5:
+            form = rng.choice(TAKE_KINDS)
+            if form in ("bytes", "bytearray") and n > 255:
+                form = "deque"  # (`256 in b"..."` raises ValueError: a bytes object answers for positions 0..255 only)
+            if not take_form_ok(form, idx):
+                idx = [abs(v) for v in idx]
+            if not take_form_ok(form, idx):
+                # a frame of hundreds of rows and a kind whose members are small (bytes, int8 ...): positions that fit
+                idx = [v % 120 for v in idx]
+            if not take_form_ok(form, idx):
+                form = "list"
+            return [k, s, idx, form]
+        return [k, s, idx, rng.choice(["list", "list", "tuple", "set", "frozenset", "numpy"])]
     if k == "query":
         if w == 0 or rng.random() < 0.2:
             return [k, s, [rng.choice(["true", "false"])]]
@@ -1297,13 +1386,15 @@ def share_argument(rng, op, slots, kinds, names_of, nrows_of):
         other = [i for i in srcs if names_of[i] != names0]
         s = rng.choice(other if other and rng.random() < 0.7 else srcs)
         kind = rng.choice(kinds_ok)
+        if base in ("bytes", "bytearray") and (nrows_of[s] or 0) > 255:
+            return op, None  # (a bytes object answers `i in obj` for positions 0..255 only)
         if kind == "collect":
             n = nrows_of[s]
             limit = rng.choice([None, None, None, 1, n, rng.randint(-1, n + 1)])
             return ["collect", s, list(values), limit, "multi#%d" % k, rng.random() < 0.5 or limit is not None], None
         return [kind, s, list(values), "%s#%d" % (base, k)], None
     a = arg_of(op) if op[0] in ("select", "filter", "take", "collect") else None
-    if a is not None and a[1] != "iter" and len(slots) < 4 and rng.random() < 0.4:
+    if a is not None and a[1] not in ONE_SHOT and len(slots) < 4 and rng.random() < 0.4:
         k = len(slots)
         op = list(op)
         if op[0] == "collect":
@@ -1545,6 +1636,45 @@ def exhaustive_small(ctx):
                     count += 1
 
 
+def kinds_small():
+    """The KIND of object an index set / mask is given as.  take: every range(a, b, step) with a, b in -1..n+1 and
+    step in +-1, +-2 (ascending, descending, strided, empty, reaching below 0 and beyond the row count) and every subset of
+    -1..n held in every kind of container of TAKE_KINDS, members listed ascending and descending (a container is a set of
+    positions: the order it lists them in is not an order of rows); filter: every mask of n-1..n+1 truth values in every kind
+    of FILTER_KINDS.  Frames of 0..4 distinct rows, list- and generator-backed; take twice with one range object."""
+    count = 0
+    for n in range(0, 5):
+        rows = [[i, -i] for i in range(n)]
+        progs = []
+        for a in range(-1, n + 2):
+            for b in range(-1, n + 2):
+                for st in (1, -1, 2, -2):
+                    f = "range(%d,%d,%d)" % (a, b, st)
+                    v = list(range(a, b, st))
+                    progs.append([["take", 0, v, f]])
+                    if (a + b + st) % 3 == 0:
+                        progs.append([["take", 0, v, f + "#0"], ["head", 1, 2], ["take", 1, v, f + "#0"]])
+        for m in range(0, n + 2):
+            for sub in itertools.combinations(range(-1, n + 1), m):
+                if n == 4 and m not in (0, 1, 2, n + 1):
+                    continue
+                for form in TAKE_KINDS:
+                    for v in ([list(sub), list(reversed(sub))] if m > 1 else [list(sub)]):
+                        if form not in ("set", "frozenset", "list") and take_form_ok(form, v):
+                            progs.append([["take", 0, v, form]])
+        for m in (n - 1, n, n + 1):
+            for mask in itertools.product([True, False], repeat=max(m, 0)) if m <= 3 else ([True] * m, [False, True] * 2 + [True] * (m - 4)):
+                for form in FILTER_KINDS:
+                    if form not in ("list",):
+                        progs.append([["filter", 0, list(mask), form]])
+        for prog in progs:
+            for lazy in (False, "gen"):
+                c = {"names": ["c0", "c1"], "schema": "list" if count % 3 else "typed", "lazy": lazy, "rows": rows, "ops": prog, "read": count % 4}
+                count += 1
+                if valid_case(c):
+                    yield c
+
+
 def alike_small():
     """distinct (alone, after +, after select, twice) on every frame of <= 3 rows ("k", v) with v from one group of
     look-alike cells; interleaved batchings of one frame."""
@@ -1686,6 +1816,14 @@ def run(ctx):
              "out differently (reordered / narrowed selection, head, take), frames of 0, 1, 3 rows x 3 columns, list- and generator-"
              "backed (%d cases%s); in the random programs an argument becomes a program variable used again with probability ~0.3; "
              "after every program each argument object is compared with a second object made the same way" % (n_sh, "; quick: half of the 0- and 1-row cases" if ctx.tier == "quick" else ""))
+    batch = list(kinds_small())
+    evaluate(ctx, batch)
+    ctx.note("argument_kind_scope", "take with every range(a, b, step), a, b in -1..n+1, step in +-1, +-2, and with every subset of -1..n "
+             "held as " + " / ".join(TAKE_KINDS[1:]) + " (members listed ascending and descending); filter with every small mask held as "
+             + " / ".join(FILTER_KINDS) + "; frames of 0..4 rows, list- and generator-backed (%d cases).  Not demanded (established on the "
+             "unchanged tree): take with a one-shot iterator / generator (`i in it` consumes it: the answer depends on the order of the "
+             "members) or a str (TypeError); select / collect with anything but list / tuple (/ set for collect): any other object is "
+             "taken as ONE column name" % len(batch))
     batch = list(batchings_small())
     evaluate(ctx, batch)
     ctx.note("lookalike_scope", "distinct (alone, after +, after select and twice) on every frame of 0..3 rows ('k', v), v from one of %d "
